@@ -86,6 +86,7 @@ type Exec struct {
 	boundScanned   int
 	expandMemo     map[string]*Term
 	symMemo        map[int]map[string]bool
+	assertHits     map[string]int // site-assertion keys that matched a call site during execution
 	sliceOrigin    map[*Term]*PtrV
 	allocOrder     map[*Term]int
 	bounded        map[*Term]bool
@@ -108,7 +109,7 @@ func NewExec(P *Program) *Exec {
 	p := NewPool()
 	ex := &Exec{P: P, p: p, tm: NewTypeMap(p), regionSorts: map[string]*Sort{}, epochMerges: map[int]*epochMerge{},
 		ptrIDs: map[string]*Term{}, ptrByID: map[*Term]*PtrV{}, condClosures: map[*Term][]condClosure{}, oblCount: map[string]int{},
-		assumptions: map[string]bool{}, boxes: map[*Term]boxInfo{}, shiftCache: map[string]*Term{}, specDecls: map[string]*FuncDecl{}, bitCache: map[int][]*Term{}, bitLinked: map[int]bool{}, bitTerm: map[int]*Term{}, shiftAxiomDone: map[string]bool{}, constBacking: map[*Term]*Term{}, constGlobVals: map[string]*Term{}, localCellRefs: map[*Term]string{}, boundOf: map[int][2]*big.Int{}, expandMemo: map[string]*Term{}, symMemo: map[int]map[string]bool{}, sliceOrigin: map[*Term]*PtrV{}, typeIDs: map[string]int{}, inputs: map[string]*Term{}, dynHints: map[*Term]types.Type{}, dynOf: map[string]types.Type{}, sentinels: map[string]*Term{}, strLits: map[string]*Term{},
+		assumptions: map[string]bool{}, boxes: map[*Term]boxInfo{}, shiftCache: map[string]*Term{}, specDecls: map[string]*FuncDecl{}, bitCache: map[int][]*Term{}, bitLinked: map[int]bool{}, bitTerm: map[int]*Term{}, shiftAxiomDone: map[string]bool{}, constBacking: map[*Term]*Term{}, constGlobVals: map[string]*Term{}, localCellRefs: map[*Term]string{}, boundOf: map[int][2]*big.Int{}, expandMemo: map[string]*Term{}, symMemo: map[int]map[string]bool{}, assertHits: map[string]int{}, sliceOrigin: map[*Term]*PtrV{}, typeIDs: map[string]int{}, inputs: map[string]*Term{}, dynHints: map[*Term]types.Type{}, dynOf: map[string]types.Type{}, sentinels: map[string]*Term{}, strLits: map[string]*Term{},
 		allocOrder: map[*Term]int{}, bounded: map[*Term]bool{}, wholeCopy: map[*Term]wholeCopy{}}
 	p.DistinctFn = ex.distinct
 	ex.tm.Bounds = ex.bounds
